@@ -17,6 +17,20 @@ from numbers import Real
 from collections.abc import Sized, Iterable
 
 
+def fit_cols(mat, num):
+    """
+    The coefficient matrix with exactly num columns: columns of zeros are
+    appended for decision variables declared after the expression was formed.
+    """
+
+    mat = sp.csr_matrix(mat)
+    if mat.shape[1] < num:
+        mat = sp.csr_matrix((mat.data, mat.indices, mat.indptr),
+                            shape=(mat.shape[0], num))
+
+    return mat[:, :num]
+
+
 def static_part(expr):
     """
     The deterministic part of an expression obtained by substituting
@@ -542,8 +556,8 @@ class Model:
 
                     return self.ro_to_roc(left) + self.ro_to_roc(right)
 
-                raf_linear, aff_linear = (constr.raffine.linear[:, :num_var],
-                                          constr.affine.linear[:, :num_var])
+                raf_linear = fit_cols(constr.raffine.linear, num_var)
+                aff_linear = fit_cols(constr.affine.linear, num_var)
 
                 row_ind = np.unique(raf_linear.indices)
                 if isinstance(drule, RoAffine):
@@ -575,7 +589,7 @@ class Model:
                     raise TypeError('Unknown type.')
 
             elif isinstance(constr, DecLinConstr):
-                linear = constr.linear
+                linear = fit_cols(constr.linear, num_var)
                 const = constr.const
                 roaffine = linear @ drule - const.reshape(const.size)
                 if isinstance(roaffine, RoAffine):
@@ -611,7 +625,7 @@ class Model:
                 else:
                     raise TypeError('Unknown type.')
             elif isinstance(constr, DecPCvxConstr):
-                linear_in = constr.affine_in.linear
+                linear_in = fit_cols(constr.affine_in.linear, num_var)
                 const_in = constr.affine_in.const
                 aff_in = linear_in@drule + const_in.reshape(const_in.size)
                 aff_in = aff_in.reshape(constr.affine_in.shape)
@@ -620,7 +634,7 @@ class Model:
                     aff_scale = constr.affine_scale
                 else:
                     scale = constr.affine_scale.to_affine()
-                    linear_sc = scale.linear
+                    linear_sc = fit_cols(scale.linear, num_var)
                     const_sc = scale.const
                     aff_scale = linear_sc@drule + const_sc.reshape(const_sc.size)
                 if not isinstance(aff_scale, Real):
@@ -632,7 +646,7 @@ class Model:
                     linear_out = np.zeros((constr.affine_out.size, drule.shape[0]))
                     const_out = constr.affine_out
                 else:
-                    linear_out = constr.affine_out.linear
+                    linear_out = fit_cols(constr.affine_out.linear, num_var)
                     const_out = constr.affine_out.const
                 aff_out = linear_out@drule + const_out.reshape(const_out.size)
                 aff_out = static_part(aff_out)
@@ -641,7 +655,7 @@ class Model:
                 ew_constr = PCvxConstr(aff_in.model, aff_in, aff_scale, aff_out,
                                        constr.multiplier, constr.xtype)
             elif isinstance(constr, DecCvxConstr):
-                linear_in = constr.affine_in.linear
+                linear_in = fit_cols(constr.affine_in.linear, num_var)
                 const_in = constr.affine_in.const
                 aff_in = linear_in@drule + const_in.reshape(const_in.size)
                 aff_in = aff_in.reshape(constr.affine_in.shape)
@@ -650,7 +664,7 @@ class Model:
                     linear_out = np.zeros((constr.affine_out.size, drule.shape[0]))
                     const_out = constr.affine_out
                 else:
-                    linear_out = constr.affine_out.linear
+                    linear_out = fit_cols(constr.affine_out.linear, num_var)
                     const_out = constr.affine_out.const
                 aff_out = linear_out@drule + const_out.reshape(const_out.size)
                 aff_out = aff_out.reshape(constr.affine_out.shape)
@@ -664,20 +678,22 @@ class Model:
                 for each in (constr.expr1, constr.expr2, constr.expr3):
                     if not isinstance(each, Real):
                         each = each.to_affine()
-                        static_part(each.linear@drule + each.const)
+                        static_part(fit_cols(each.linear, num_var)@drule
+                                    + each.const)
                 if isinstance(drule, RoAffine):
                     drule_affine = drule.affine
                 else:
                     drule_affine = drule
 
                 affine1 = constr.expr1.to_affine()
-                expr1 = affine1.linear@drule_affine + affine1.const
+                linear1 = fit_cols(affine1.linear, num_var)
+                expr1 = linear1@drule_affine + affine1.const
 
                 if isinstance(constr.expr2, Real):
                     expr2 = constr.expr2
                 else:
                     affine2 = constr.expr2.to_affine()
-                    linear2 = affine2.linear
+                    linear2 = fit_cols(affine2.linear, num_var)
                     const2 = affine2.const
                     expr2 = linear2@drule_affine + const2
 
@@ -685,20 +701,21 @@ class Model:
                     expr3 = constr.expr3
                 else:
                     affine3 = constr.expr3.to_affine()
-                    linear3 = affine3.linear
+                    linear3 = fit_cols(affine3.linear, num_var)
                     const3 = affine3.const
                     expr3 = linear3@drule_affine + const3
 
                 ew_constr = ExpConstr(expr1.model, expr1, expr2, expr3)
 
             elif isinstance(constr, DecLMIConstr):
-                static_part(constr.linear @ drule)
+                linear = fit_cols(constr.linear, num_var)
+                static_part(linear @ drule)
                 if isinstance(drule, RoAffine):
                     drule_affine = drule.affine
                 else:
                     drule_affine = drule
 
-                lmi_left = constr.linear @ drule_affine - constr.const.flatten()
+                lmi_left = linear @ drule_affine - constr.const.flatten()
                 lmi_linear = lmi_left.linear
                 lmi_const = (-lmi_left.const).reshape((constr.dim, constr.dim))
 
@@ -819,7 +836,7 @@ class Model:
             for s in range(num_scen):
                 drule = drule_list[s]
                 for linear, raffine, const in zip(linears, raffines, consts):
-                    left = linear[i, :num_var] @ drule + const[i]
+                    left = fit_cols(linear[i], num_var) @ drule + const[i]
                     if raffine is not None:
                         if isinstance(drule, RoAffine):
                             extra = left.raffine
@@ -842,7 +859,8 @@ class Model:
                                         np.any(coeffs.const)):
                                     raise SyntaxError('Incorrect affine '
                                                       'expressions.')
-                        new_raffine = raffine.linear[row_ind] @ temp
+                        new_raffine = fit_cols(raffine.linear[row_ind],
+                                               num_var) @ temp
                         new_raffine = new_raffine.reshape((1, new_raffine.size))
                         new_raffine += raffine.const[i, :num_rand] + extra
                         left = RoAffine(new_raffine, left, self.sup_model)
